@@ -251,7 +251,8 @@ def run_all(targets: List[str], jobs: int) -> List[Dict[str, Any]]:
 
 
 def finish(a: Dict[str, Any]) -> Dict[str, Any]:
-    a['vacuous'] = (not a.get('assumed')) and not a.get('live') and not a['unsupported'] and not a['errors']
+    a['vacuous'] = (not a.get('assumed')) and not a.get('live') and not a['unsupported'] and not a['errors'] \
+        and not a['failures']
     return a
 
 
